@@ -1495,7 +1495,16 @@ class TeX(object):
                 return dimen(sign * dimen(t))
             self.pushToken(t)
             break
-        num = dimen(sign * self.readDecimal() * self.readUnitOfMeasure(units=units))
+        value = sign * self.readDecimal()
+        unit = self.readUnitOfMeasure(units=units)
+        if abs(unit) >= 2e9:
+            # fil, fill and filll are encoded by an offset (see dimen.__new__):
+            # only the amount scales, the order must stay what was written
+            offset = unit - unit.fil
+            value = value * unit.fil
+            num = dimen(value - offset if value < 0 else value + offset)
+        else:
+            num = dimen(value * unit)
         ParameterCommand.enable()
         return num
 
